@@ -822,4 +822,48 @@ theorem C08_resv_zero_hands_out_owned_buffer :
       ownedIds s = [1]) := by
   refine ⟨⟨_, rfl, by decide, by decide⟩, ⟨_, rfl, by decide, by decide, by decide⟩⟩
 
+/-! ### Buffer group ids: a failed creation touches no live pool -/
+
+/-- **A creation the kernel refuses changes nothing on the ring**: no group is registered and
+none is unregistered (the half-built pool has no `Drop` to run). -/
+theorem C08_failed_creation_keeps_registry (r : Reg) (c m : Nat)
+    (h : (newPool r c m).2.2 = none) : (newPool r c m).1 = r := by
+  unfold newPool Reg.register at *
+  by_cases hm : c % m ∈ r.live
+  · simp [hm]
+  · simp [hm] at h
+
+/-- Dropping a pool unregisters its own group and no other. -/
+theorem C08_drop_unregisters_only_own (r : Reg) (id a : Nat) (h : a ≠ id) :
+    a ∈ (r.unregister id).live ↔ a ∈ r.live := by
+  unfold Reg.unregister
+  exact List.mem_erase_of_ne h
+
+/-- **A live pool survives any amount of pool creation and destruction on its ring** —
+including the creation that is handed its own id after the 16-bit counter wrapped: for every
+counter value, modulus and number of rounds, a group that is registered stays registered. -/
+theorem C08_churn_keeps_live_pool (m a : Nat) (fuel : Nat) :
+    ∀ (r : Reg) (c k : Nat), a ∈ r.live → a ∈ (churn r c m fuel k).1.live := by
+  induction fuel with
+  | zero => intro r c k h; exact h
+  | succ fuel ih =>
+    intro r c k h
+    unfold churn newPool Reg.register
+    by_cases hm : c % m ∈ r.live
+    · simp [hm, h]
+    · simp only [hm, ↓reduceIte]
+      apply ih
+      have hne : a ≠ c % m := fun e => hm (e ▸ h)
+      exact (C08_drop_unregisters_only_own _ _ _ hne).2 (List.mem_cons_of_mem _ h)
+
+/-- With an 8-value counter: 7 creations succeed, the 8th is refused, the first pool is still
+registered (the line `pool idwrap` prints, for the real modulus, is computed the same way). -/
+example : idwrapLine 8 = "idwrap created=7 collided=1 errno=EEXIST live=1 read=ok" := by decide
+
+/-- What the red-team change C08j did — build the pool value first, so that `Drop`
+(unregister the id) also runs when registration failed — removes the LIVE pool's group. -/
+example :
+    let r : Reg := { live := [5] }
+    (newPool r 5 65536).2.2 = none ∧ (r.unregister 5).live = [] := by decide
+
 end A10.Pool
